@@ -40,7 +40,7 @@ def run(ctx):
             ctx.floor("E8", "abort-capable sites enumerated (dev profile)", len(sites), 60)
             ctx.floor("E8", "functions reachable from the untrusted-input entry set", len(reach), 500)
             check_loops(ctx, P, reach)
-            F.check_iszero(ctx, P, "E8.iszero", check_asserts=True)
+            F.check_iszero(ctx, P, "E8.iszero", check_asserts=True, need=())
     check_dep_contracts(ctx)
     from .posctl import run_posctl
 
